@@ -489,6 +489,31 @@ def _start_part(ck, tier):
                              site=f"{cname}.__init__:start")
 
 
+def _int_start_part(ck, tier):
+    """walkers on whole-number coordinates given as an INTEGER array, limits that are not whole numbers: every recorded sample inside"""
+    from inference.mcmc import EnsembleSampler
+    post = lambda x: -0.5 * float(np.sum((np.asarray(x, dtype=float)) ** 2) / 0.3)           # peaked at 0, OUTSIDE both boxes: proposals head for the wall
+    for label, lo, hi, w in (("lower", np.array([0.5, 0.5]), np.array([4.5, 4.5]), np.array([[1, 1], [2, 1], [1, 2], [3, 2], [2, 3], [4, 4], [1, 3]])),
+                             ("upper", np.array([-4.5, -4.5]), np.array([-0.5, -0.5]), -np.array([[1, 1], [2, 1], [1, 2], [3, 2], [2, 3], [4, 4], [1, 3]]))):
+        for dt in (np.int64, np.int32):
+            ck.case(("int-start", label, np.dtype(dt).name))
+            try:
+                ch = EnsembleSampler(posterior=post, starting_positions=w.astype(dt), bounds=(lo, hi), display_progress=False)
+                ch.rng = np.random.default_rng(seed() + 3)
+                ch.advance(40)
+                smp = np.asarray(ch.get_sample(), dtype=float)
+                pos = np.asarray(ch.walker_positions, dtype=float)
+            except Exception as ex:
+                ck.violation("EnsembleSampler raised for whole-number starting positions given as an integer array", {"dtype": np.dtype(dt).name, "error": repr(ex)[:200]},
+                             site="EnsembleSampler.__init__:dtype")
+                continue
+            worst = max(_ulps_excess(float(v), float(a), float(b)) for row in np.vstack([smp, pos]) for v, a, b in zip(row, lo, hi))
+            if worst > 4:
+                bad = [row.tolist() for row in smp if any(v < a or v > b for v, a, b in zip(row, lo, hi))][:3]
+                ck.violation("InForce: recorded samples of an ensemble started from an integer array lie outside limits that are not whole numbers",
+                             {"dtype": np.dtype(dt).name, "bounds": [lo.tolist(), hi.tolist()], "samples_outside": bad}, site="EnsembleSampler.__init__:dtype")
+
+
 def _tiny_bounds_start_part(ck, tier):
     """limits of very small absolute size (1e-12): a start hundreds of interval widths outside is refused, or never recorded outside"""
     from inference.mcmc import HamiltonianChain, PcaChain
@@ -562,6 +587,7 @@ def run(tier):
     c07.orbit_part(ck, tier, only_box=True, reversibility=False)
     _start_part(ck, tier)
     _tiny_bounds_start_part(ck, tier)
+    _int_start_part(ck, tier)
     _fresh_reload_part(ck, tier)
     from harness import repotests
     repotests.run_part(ck, "C04")          # traces of the repository's own MCMC tests, judged by TestRunTrace.tla
